@@ -13,7 +13,9 @@ import sys
 sys.path.insert(0, os.path.dirname(os.path.abspath(__file__)))
 import vlib  # noqa: E402
 
-CSUM = {"cmp_pm_coinc", "cmp_jsa_raw", "cmp_jsa", "cmp_jsi", "cmpa_jsi_from_config"}
+CSUM = {"cmp_pm_coinc", "cmp_jsa_raw", "cmp_jsa", "cmp_jsi", "cmpa_jsi_from_config",
+        "cmpg_jsa_range", "cmpg_jsi_range", "cmpg_jsa_normalized_range", "cmpg_jsi_normalized_range", "cmpg_counts_coinc",
+        "cmpg_hom_series", "cmpg_hom_vis", "cmpg_hom2_series", "cmpg_hom2_vis", "cmpg_schmidt"}
 CREL = {"cmp_integrand"}
 
 
